@@ -551,6 +551,10 @@ def queryresp_length_ok(fs, st, snap):
     exact = st.same(L, want) or (st.prove_le(L, want) and st.prove_le(want, L))
     short_ok = (not exact) and any(str(k).startswith('exit:') for k in st.tags) and st.prove_le(L, want)
     if not exact and not short_ok:
+        # ... or through a `break` taken with a NULL pointer local (the list cursor): the same "list ended" exit written
+        # as a statement; which local it is and that nothing was copied in that iteration is decided by C07 (R07.i)
+        short_ok = any(str(k).startswith('left-by-break:') and isinstance(v, tuple) for k, v in st.tags.items()) and st.prove_le(L, want)
+    if not exact and not short_ok:
         # a path on which the list head was NULL at entry although the recorded count is positive: excluded by the same
         # invariant (count = list length); the loop never ran, so it carries no exit tag
         head = st.canon(('pset', ('in', 'st', fs.soff('see_list')), (ZERO, ('ptr', 'SEEN', ZERO))))
